@@ -171,7 +171,7 @@ SRC_TIE = {
     "C02": " Source-text tie (C02Src): the body of deltaForm's loop over blobs and Sequence.delta, translated from the live source on every run, are the model's summand (sigma - sigma_blob)^2/nblobs and (deltaForm 5 + deltaForm 6)/2 for all arguments.",
     "C04": " Source-text tie (C04Src): the no-pH forms of Fplus, Fminus, FCR, NCPR, FER, mean_net_charge translated from the live source equal the model's fractions, and FCR = f+ + f-, NCPR = f+ - f-, |NCPR| <= FCR <= 1 hold of the source text for all counts.",
     "C06": " Source-text tie (C06Src): the per-residue recoding decisions inside the loops of Sequence.Omega, Omega_seq and both arms of kappa_X, translated from the live source on every run, are the model's recodings (letters and charge classes) for EVERY residue / group membership, lifted to whole sequences; the loop frames (empty start, kappa() of a fresh Sequence on the recoded string) are what the model assumes.",
-    "C07": " Source-text tie (C07Src): the index arithmetic of sequence_charge_decoration's double loop (both range bounds, the two subscripts into chargePattern, the distance under the root, the exponent, the final denominator), translated from the live source on every run, visits for EVERY length exactly the (index, index, distance) triples of the model's scdLoop, in order, all subscripts in range and all distances positive, with exponent 1/2 and denominator N.",
+    "C07": " Source-text tie (C07Src): the index arithmetic of sequence_charge_decoration's double loop (both range bounds, the two subscripts into chargePattern, the distance under the root, the exponent, the final denominator), translated from the live source on every run, visits for EVERY length exactly the (index, index, distance) triples of the model's scdLoop, in order, all subscripts in range and all distances positive, with exponent 1/2 and denominator N; and scdLoop (the object of every C07 theorem) is proved equal to the sum of q[i]*q[j]*sqrt(dist) over the triples the SOURCE's nest visits, over the source's denominator (scd_of_source_triples).",
     "C08": " Source-text tie (C08Src): Sequence.phasePlotRegion translated from the live source equals regionCode for all rational arguments.",
     "C09": " Source-text tie (C09Src): __verify_pH translated from the live source rejects exactly pH < 0 or pH > 14.",
     "C10": " Source-text tie (C10Src): the integer bookkeeping (nblobs, flank, flank_start, flank_end) at the head of each of the SIX sliding-window functions, translated from the live source, equals the model's flanks / window count for every legal window - each copy separately.",
